@@ -420,10 +420,25 @@ def make_run(focus, seed):
             if ins['sh'] is not None and ins['op'] not in ('fft',):
                 avail.append(n0 + j)
         out = []
+        # attribute reads with recording off on a register the program is going to read the same
+        # attribute of later (x.T before the recorded x.T): whatever the access leaves on the
+        # node must not stand in for the recorded operation
+        ahead = [ins['a'][0] for ins in prog['instrs'][c.ip:]
+                 if ins['op'] == 'transpose' and ins.get('attr') and ins['a'][0] in avail]
+        twod = [r for r in avail if r >= n0 and len(prog['instrs'][r - n0]['sh']) == 2]
         for _ in range(k):
             r = rng.choice(avail)
-            w = rng.choice(['mul', 'sin', 'add', 'neg'])
-            if w == 'mul':
+            w = rng.choice(['mul', 'sin', 'add', 'neg', 'T'])
+            if w == 'T':
+                if ahead and rng.random() < 0.7:
+                    r = rng.choice(ahead)
+                elif twod:
+                    r = rng.choice(twod)
+                else:
+                    w = 'neg'
+            if w == 'T':
+                out.append({'op': 'transpose', 'a': [r], 'attr': True})
+            elif w == 'mul':
                 out.append({'op': 'mul', 'a': [r, {'c': 2.0}]})
             elif w == 'sin':
                 out.append({'op': 'un', 'f': 'sin', 'a': [r]})
